@@ -219,4 +219,350 @@ Section Ok.
         - destruct (r =? v1); [|discriminate]. apply IH. exact H. }
       rewrite (G _ _ _ (IH _ Hl)). rewrite Hr, Z.eqb_refl, <- He, Hp. reflexivity.
   Qed.
+
+  (* ---------------------------------------------------------------- predicates on operations are inherited *)
+  Definition all_todo (P : op -> bool) (s : st) : Prop :=
+    forall i t, nth_error (thrs s) i = Some t -> forallb P (t_todo t) = true.
+  Definition all_log (P : op -> bool) (s : st) : Prop := forall e, In e (log s) -> P (e_op e) = true.
+
+  Lemma nth_upd_cases : forall A (l : list A) i j x y, nth_error (upd l i x) j = Some y ->
+      (i = j /\ y = x /\ exists t, nth_error l i = Some t) \/ (i <> j /\ nth_error l j = Some y).
+  Proof.
+    intros A l i j x y H. destruct (Nat.eq_dec i j) as [->|Hne].
+    - left. destruct (nth_error l j) eqn:E.
+      + rewrite (nth_error_upd_eq _ _ _ _ _ E) in H. inversion H. eauto.
+      + assert (nth_error (upd l j x) j = None) by (apply nth_error_None; rewrite length_upd; apply nth_error_None; exact E).
+        congruence.
+    - right. rewrite nth_error_upd_neq in H by exact Hne. auto.
+  Qed.
+
+  Lemma pred_step : forall P s i, all_todo P s -> all_log P s -> all_todo P (xstep s i) /\ all_log P (xstep s i).
+  Proof.
+    intros P s i Ht Hl. unfold xstep.
+    destruct (nth_error (thrs s) i) as [t|] eqn:Hi; [|auto].
+    destruct (t_todo t) as [|o rest] eqn:Htodo; [auto|].
+    pose proof (Ht _ _ Hi) as Hp. rewrite Htodo in Hp. simpl in Hp. apply andb_prop in Hp. destruct Hp as [Hpo Hpr].
+    assert (Hcomp : forall t1 post r, all_todo P (complete s i t1 rest o post r) /\ all_log P (complete s i t1 rest o post r)).
+    { intros t1 post r. split.
+      - intros j tj Hj. simpl in Hj. apply nth_upd_cases in Hj. destruct Hj as [(_ & -> & _)|(_ & Hj)]; [exact Hpr|eauto].
+      - intros e [<-|He]; [exact Hpo|auto]. }
+    assert (Hloc : forall t1 v, t_todo t1 = t_todo t -> all_todo P (mkSt v (upd (thrs s) i t1) (log s)) /\ all_log P (mkSt v (upd (thrs s) i t1) (log s))).
+    { intros t1 v E. split; [|exact Hl].
+      intros j tj Hj. simpl in Hj. apply nth_upd_cases in Hj. destruct Hj as [(_ & -> & _)|(_ & Hj)]; [rewrite E; eauto|eauto]. }
+    destruct o as [inc|inc|o n]; [apply Hcomp| |apply Hcomp].
+    destruct (t_pc t); try (apply Hloc; reflexivity).
+    destruct (cell s =? t_old t); [apply Hcomp|apply Hloc; reflexivity].
+  Qed.
+
+  Lemma pred_run : forall P v0 progs sched, Forall (fun p => forallb P p = true) progs ->
+      all_todo P (xrun (init_st v0 progs) sched) /\ all_log P (xrun (init_st v0 progs) sched).
+  Proof.
+    intros P v0 progs sched H. induction sched as [|i l IH] using rev_ind.
+    - split.
+      + intros i t Hi. simpl in Hi. rewrite nth_error_map in Hi. destruct (nth_error progs i) eqn:E; inversion Hi; subst. simpl.
+        rewrite Forall_forall in H. apply H. eapply nth_error_In; eauto.
+      + intros e [].
+    - rewrite xrun_snoc. destruct IH. apply pred_step; auto.
+  Qed.
+
+  (* ---------------------------------------------------------------- no lost update *)
+  Definition op_inc (o : op) : Z := match o with OIncr i => i | OLoop i => i | OCas _ _ => 0 end.
+  Definition is_add (o : op) : bool := match o with OCas _ _ => false | _ => true end.
+  Definition osum (l : list op) : Z := fold_right (fun o a => op_inc o + a) 0 l.
+  Definition pending (l : list thr) : Z := fold_right (fun t a => osum (t_todo t) + a) 0 l.
+  Definition total (progs : list (list op)) : Z := fold_right (fun p a => osum p + a) 0 progs.
+
+  Lemma pending_upd : forall l i t t1, nth_error l i = Some t ->
+      pending (upd l i t1) = pending l - osum (t_todo t) + osum (t_todo t1).
+  Proof.
+    induction l as [|a l IH]; intros [|i] t t1 H; simpl in *; try discriminate.
+    - inversion H; subst. lia.
+    - rewrite (IH _ _ _ H). lia.
+  Qed.
+
+  Lemma pending_init : forall progs, pending (map new_thr progs) = total progs.
+  Proof. induction progs as [|p l IH]; simpl; [reflexivity|]. rewrite IH. reflexivity. Qed.
+
+  Section IntegerAdd.
+    (* exactly representable floats: the loop's addition agrees with integer addition mod 2^w *)
+    Hypothesis Hf : forall a b, fadd a b = (a + b) mod M.
+
+    Lemma nlu_step : forall s i,
+        (forall j t, nth_error (thrs s) j = Some t -> thr_inv t) -> all_todo is_add s ->
+        (cell (xstep s i) + pending (thrs (xstep s i))) mod M = (cell s + pending (thrs s)) mod M.
+    Proof.
+      intros s i Ht Ha. unfold xstep.
+      destruct (nth_error (thrs s) i) as [t|] eqn:Hi; [|reflexivity].
+      destruct (t_todo t) as [|o rest] eqn:Htodo; [reflexivity|].
+      pose proof (Ha _ _ Hi) as Hp. rewrite Htodo in Hp. simpl in Hp. apply andb_prop in Hp. destruct Hp as [Hpo _].
+      destruct o as [inc|inc|o n]; [| |discriminate].
+      - simpl. rewrite (pending_upd _ _ _ _ Hi). rewrite Htodo. simpl.
+        rewrite Zplus_mod_idemp_l. f_equal. lia.
+      - destruct (t_pc t) eqn:Hpc;
+          try (simpl; rewrite (pending_upd _ _ _ _ Hi); simpl; f_equal; lia).
+        destruct (cell s =? t_old t) eqn:E.
+        + apply Z.eqb_eq in E. simpl. rewrite (pending_upd _ _ _ _ Hi). rewrite Htodo. simpl.
+          pose proof (Ht _ _ Hi Hpc) as K. rewrite Htodo in K. rewrite K, Hf, <- E.
+          rewrite Zplus_mod_idemp_l. f_equal. lia.
+        + simpl. rewrite (pending_upd _ _ _ _ Hi). simpl. f_equal. lia.
+    Qed.
+
+    Lemma range_step : forall s i,
+        (forall j t, nth_error (thrs s) j = Some t -> thr_inv t) -> all_todo is_add s ->
+        0 <= cell s < M -> 0 <= cell (xstep s i) < M.
+    Proof.
+      intros s i Ht Ha Hr. unfold xstep.
+      destruct (nth_error (thrs s) i) as [t|] eqn:Hi; [|exact Hr].
+      destruct (t_todo t) as [|o rest] eqn:Htodo; [exact Hr|].
+      pose proof (Ha _ _ Hi) as Hp. rewrite Htodo in Hp. simpl in Hp. apply andb_prop in Hp. destruct Hp as [Hpo _].
+      destruct o as [inc|inc|o n]; [| |discriminate].
+      - simpl. apply Z.mod_pos_bound. apply M_pos.
+      - destruct (t_pc t) eqn:Hpc; try exact Hr.
+        destruct (cell s =? t_old t) eqn:E; [|exact Hr].
+        simpl. pose proof (Ht _ _ Hi Hpc) as K. rewrite Htodo in K. rewrite K, Hf. apply Z.mod_pos_bound. apply M_pos.
+    Qed.
+
+    Theorem no_lost_update_sum : forall v0 progs sched,
+        Forall (fun p => forallb is_add p = true) progs ->
+        let s := xrun (init_st v0 progs) sched in
+        (cell s + pending (thrs s)) mod M = (v0 + total progs) mod M /\ (0 <= v0 < M -> 0 <= cell s < M).
+    Proof.
+      intros v0 progs sched H. induction sched as [|i l IH] using rev_ind.
+      - simpl. rewrite pending_init. auto.
+      - rewrite xrun_snoc. cbv zeta in *. destruct IH as [IH1 IH2].
+        destruct (inv_run v0 progs l) as (_ & Ht & _). destruct (pred_run is_add v0 progs l H) as [Ha _].
+        split.
+        + rewrite nlu_step; auto.
+        + intros Hr. apply range_step; auto.
+    Qed.
+
+    Lemma pending_finished : forall l, forallb (fun t => match t_todo t with [] => true | _ => false end) l = true -> pending l = 0.
+    Proof.
+      induction l as [|t l IH]; simpl; [reflexivity|]. intros H. apply andb_prop in H. destruct H as [H1 H2].
+      destruct (t_todo t); [|discriminate]. simpl. rewrite IH by exact H2. reflexivity.
+    Qed.
+
+    (* ---------------------------------------------------------------- distinct tickets *)
+    Definition plus_one (o : op) : bool := match o with OIncr 1 | OLoop 1 => true | _ => false end.
+
+    Lemma mod_shift_neq : forall a j k, 0 <= j < k -> k < M -> (a + j) mod M <> (a + k) mod M.
+    Proof.
+      intros a j k Hj Hk E.
+      assert (H : ((a + k) - (a + j)) mod M = 0) by (rewrite Zminus_mod, E, Z.sub_diag; apply Zmod_0_l).
+      replace (a + k - (a + j)) with (k - j) in H by lia. rewrite Z.mod_small in H by lia. lia.
+    Qed.
+
+    Lemma chain_plus1 : forall v0 l cur, 0 <= v0 < M -> lchain v0 l cur ->
+        (forall e, In e l -> plus_one (e_op e) = true) -> Z.of_nat (length l) <= M ->
+        cur = (v0 + Z.of_nat (length l)) mod M /\ NoDup (map e_ret l) /\
+        (forall e, In e l -> exists j, 0 <= j < Z.of_nat (length l) /\ e_ret e = (v0 + j) mod M).
+    Proof.
+      intros v0 l. induction l as [|e l IH]; intros cur Hv Hc Hp Hn.
+      - simpl in *. subst. rewrite Z.add_0_r, Z.mod_small by lia. repeat split; [constructor|intros e []].
+      - simpl in Hc. destruct Hc as (Hpost & Hret & Heff & Hl).
+        assert (Hn' : Z.of_nat (length l) <= M) by (simpl length in Hn; lia).
+        destruct (IH _ Hv Hl (fun e He => Hp e (or_intror He)) Hn') as (Hpre & Hnd & Hall).
+        assert (Hlt : Z.of_nat (length l) < M) by (simpl length in Hn; lia).
+        split; [|split].
+        + rewrite <- Hpost, Heff. pose proof (Hp e (or_introl eq_refl)) as Pe.
+          assert (Ef : effect fadd M (e_op e) (e_pre e) = (e_pre e + 1) mod M).
+          { destruct (e_op e) as [inc|inc|? ?]; simpl in Pe; try discriminate;
+              destruct inc as [|[| |]|]; try discriminate; simpl; [reflexivity|apply Hf]. }
+          rewrite Ef, Hpre. rewrite Zplus_mod_idemp_l. f_equal. simpl length. lia.
+        + simpl. constructor; [|exact Hnd]. rewrite Hret, Hpre. intros Hin. apply in_map_iff in Hin.
+          destruct Hin as (e' & He' & Hin). destruct (Hall _ Hin) as (j & Hj & Ej). rewrite Ej in He'.
+          eapply mod_shift_neq; [| |exact He']; lia.
+        + intros e' [<-|Hin].
+          * exists (Z.of_nat (length l)). split; [simpl length; lia|]. rewrite Hret. exact Hpre.
+          * destruct (Hall _ Hin) as (j & Hj & Ej). exists j. split; [simpl length; lia|exact Ej].
+    Qed.
+  End IntegerAdd.
+
+  (* ---------------------------------------------------------------- one CAS winner *)
+  Definition cas_on (o : Z) (p : op) : bool := match p with OCas e n => (e =? o) && negb (n =? o) | _ => false end.
+  Definition wins (o : Z) (e : event) : bool := e_ret e =? o.
+
+  Definition winner_inv (o : Z) (s : st) : Prop :=
+    (log s = [] /\ cell s = o) \/
+    (cell s <> o /\ length (filter (wins o) (log s)) = 1%nat /\
+     exists e n, In e (log s) /\ e_ret e = o /\ e_op e = OCas o n /\ cell s = n).
+
+  Lemma winner_step : forall o s i, all_todo (cas_on o) s -> winner_inv o s -> winner_inv o (xstep s i).
+  Proof.
+    intros o s i Ha Hw. unfold xstep.
+    destruct (nth_error (thrs s) i) as [t|] eqn:Hi; [|exact Hw].
+    destruct (t_todo t) as [|p rest] eqn:Htodo; [exact Hw|].
+    pose proof (Ha _ _ Hi) as Hp. rewrite Htodo in Hp. simpl in Hp. apply andb_prop in Hp. destruct Hp as [Hpo _].
+    destruct p as [inc|inc|e n]; try discriminate. simpl in Hpo. apply andb_prop in Hpo. destruct Hpo as [He Hn].
+    apply Z.eqb_eq in He. subst e. apply negb_true_iff in Hn. apply Z.eqb_neq in Hn.
+    right. destruct Hw as [[Hl Hc]|(Hc & Hcount & e0 & n0 & Hin & Hr & Hop & Hcell)].
+    - simpl. rewrite Hc, Z.eqb_refl, Hl. split; [exact Hn|]. split.
+      + unfold wins; simpl. rewrite Z.eqb_refl. reflexivity.
+      + eexists; exists n. split; [left; reflexivity|]. simpl. auto.
+    - simpl. assert (E : (cell s =? o) = false) by (apply Z.eqb_neq; exact Hc). rewrite E. split; [exact Hc|]. split.
+      + unfold wins at 1; simpl. rewrite E. exact Hcount.
+      + exists e0, n0. auto.
+  Qed.
+
+  (* ---------------------------------------------------------------- lock freedom *)
+  Definition unfinished (s : st) (i : nat) : Prop := exists t o r, nth_error (thrs s) i = Some t /\ t_todo t = o :: r.
+
+  (* own steps thread i still needs before its next step completes an operation *)
+  Definition rank (s : st) (i : nat) : nat :=
+    match nth_error (thrs s) i with
+    | Some t => match t_todo t with
+                | OLoop _ :: _ => match t_pc t with PLoopCas => if cell s =? t_old t then 0 else 2 | _ => 1 end
+                | _ => 0
+                end
+    | None => 0
+    end.
+
+  Lemma log_mono_step : forall s u, (length (log s) <= length (log (xstep s u)))%nat.
+  Proof.
+    intros s u. unfold xstep. destruct (nth_error (thrs s) u) as [t|]; [|lia].
+    destruct (t_todo t) as [|[inc|inc|o n] rest]; simpl; try lia.
+    destruct (t_pc t); simpl; try lia. destruct (cell s =? t_old t); simpl; lia.
+  Qed.
+  Lemma log_mono_run : forall l s, (length (log s) <= length (log (xrun s l)))%nat.
+  Proof. induction l as [|u l IH]; intros s; simpl; [lia|]. pose proof (log_mono_step s u). pose proof (IH (xstep s u)). unfold xrun in *. lia. Qed.
+
+  (* a step of another thread either completes an operation or leaves the cell and thread i alone *)
+  Lemma other_step : forall s u i, u <> i ->
+      nth_error (thrs (xstep s u)) i = nth_error (thrs s) i /\
+      ((length (log s) < length (log (xstep s u)))%nat \/ cell (xstep s u) = cell s).
+  Proof.
+    intros s u i Hne. unfold xstep. destruct (nth_error (thrs s) u) as [t|]; [|auto].
+    assert (Hcomp : forall t1 rest o post r,
+               nth_error (thrs (complete s u t1 rest o post r)) i = nth_error (thrs s) i /\
+               ((length (log s) < length (log (complete s u t1 rest o post r)))%nat \/ cell (complete s u t1 rest o post r) = cell s)).
+    { intros. simpl. rewrite nth_error_upd_neq by exact Hne. split; [reflexivity|left; lia]. }
+    assert (Hloc : forall t1,
+               nth_error (thrs (mkSt (cell s) (upd (thrs s) u t1) (log s))) i = nth_error (thrs s) i /\
+               ((length (log s) < length (log (mkSt (cell s) (upd (thrs s) u t1) (log s))))%nat \/
+                cell (mkSt (cell s) (upd (thrs s) u t1) (log s)) = cell s)).
+    { intros. simpl. rewrite nth_error_upd_neq by exact Hne. auto. }
+    destruct (t_todo t) as [|[inc|inc|o n] rest]; [auto|apply Hcomp| |apply Hcomp].
+    destruct (t_pc t); try apply Hloc.
+    destruct (cell s =? t_old t); [apply Hcomp|apply Hloc].
+  Qed.
+
+  Lemma own_step : forall s i, unfinished s i ->
+      (length (log s) < length (log (xstep s i)))%nat \/
+      (unfinished (xstep s i) i /\ S (rank (xstep s i) i) = rank s i /\ length (log (xstep s i)) = length (log s)).
+  Proof.
+    intros s i (t & o & r & Hi & Htodo). unfold rank, unfinished, xstep. rewrite Hi, Htodo.
+    destruct o as [inc|inc|e n]; simpl; try (left; lia).
+    destruct (t_pc t) eqn:Hpc; simpl;
+      try (right; rewrite (nth_error_upd_eq _ _ _ _ _ Hi); simpl; rewrite Htodo, Z.eqb_refl;
+           split; [do 3 eexists; split; reflexivity|split; reflexivity]).
+    destruct (cell s =? t_old t) eqn:E; simpl; [left; lia|].
+    right. rewrite (nth_error_upd_eq _ _ _ _ _ Hi). simpl. rewrite Htodo.
+    split; [do 3 eexists; split; reflexivity|split; reflexivity].
+  Qed.
+
+  Lemma progress_rank : forall l s i, unfinished s i -> (rank s i < count_occ Nat.eq_dec l i)%nat ->
+      (length (log s) < length (log (xrun s l)))%nat.
+  Proof.
+    induction l as [|u l IH]; intros s i Hu Hc; simpl in Hc; [lia|].
+    change (xrun s (u :: l)) with (xrun (xstep s u) l).
+    destruct (Nat.eq_dec u i) as [->|Hne].
+    - destruct (own_step s i Hu) as [Hg|(Hu' & Hr & Hl)].
+      + pose proof (log_mono_run l (xstep s i)). lia.
+      + rewrite <- Hl. apply (IH _ i Hu'). lia.
+    - destruct (other_step s u i Hne) as [Hsame [Hg|Hcell]].
+      + pose proof (log_mono_run l (xstep s u)). lia.
+      + pose proof (log_mono_step s u) as Hm.
+        assert (Hu' : unfinished (xstep s u) i) by (unfold unfinished in *; rewrite Hsame; exact Hu).
+        assert (Hr : rank (xstep s u) i = rank s i) by (unfold rank; rewrite Hsame, Hcell; reflexivity).
+        pose proof (IH (xstep s u) i Hu'). lia.
+  Qed.
+
+  Lemma rank_le_2 : forall s i, (rank s i <= 2)%nat.
+  Proof.
+    intros. unfold rank. destruct (nth_error (thrs s) i) as [t|]; [|lia].
+    destruct (t_todo t) as [|[| |] ?]; try lia. destruct (t_pc t); try lia. destruct (cell s =? t_old t); lia.
+  Qed.
+
+  (* pigeonhole: more than 2n steps of n threads contain three steps of one thread *)
+  Lemma count_filter_ne : forall (l : list nat) n,
+      (length (filter (fun x => negb (Nat.eqb x n)) l) + count_occ Nat.eq_dec l n = length l)%nat.
+  Proof.
+    induction l as [|a l IH]; intros n; simpl; [reflexivity|].
+    destruct (Nat.eq_dec a n) as [->|Hne].
+    - rewrite Nat.eqb_refl. simpl. specialize (IH n). lia.
+    - apply Nat.eqb_neq in Hne. rewrite Hne. simpl. specialize (IH n). lia.
+  Qed.
+  Lemma count_filter_le : forall (l : list nat) n i,
+      (count_occ Nat.eq_dec (filter (fun x => negb (Nat.eqb x n)) l) i <= count_occ Nat.eq_dec l i)%nat.
+  Proof.
+    induction l as [|a l IH]; intros n i; simpl; [lia|].
+    destruct (Nat.eqb a n); simpl; destruct (Nat.eq_dec a i); specialize (IH n i); lia.
+  Qed.
+  Lemma pigeon3 : forall n (l : list nat), (forall i, In i l -> (i < n)%nat) -> (2 * n < length l)%nat ->
+      exists i, In i l /\ (3 <= count_occ Nat.eq_dec l i)%nat.
+  Proof.
+    induction n as [|n IH]; intros l Hb Hlen.
+    - destruct l as [|a l]; [simpl in Hlen; lia|]. specialize (Hb a (or_introl eq_refl)). lia.
+    - destruct (le_lt_dec 3 (count_occ Nat.eq_dec l n)) as [H3|H3].
+      + exists n. split; [|exact H3]. apply (count_occ_In Nat.eq_dec). lia.
+      + set (l' := filter (fun x => negb (Nat.eqb x n)) l).
+        assert (Hb' : forall i, In i l' -> (i < n)%nat).
+        { intros i Hi. apply filter_In in Hi. destruct Hi as [Hi Hn]. apply negb_true_iff, Nat.eqb_neq in Hn.
+          specialize (Hb i Hi). lia. }
+        pose proof (count_filter_ne l n) as Hc. fold l' in Hc.
+        destruct (IH l' Hb') as (i & Hi & H3'); [lia|].
+        exists i. split; [apply filter_In in Hi; tauto|]. pose proof (count_filter_le l n i). fold l' in H. lia.
+  Qed.
+
+  (* ---------------------------------------------------------------- counting completed operations *)
+  Definition pendingN (l : list thr) : nat := fold_right (fun t a => (length (t_todo t) + a)%nat) 0%nat l.
+  Definition totalN (progs : list (list op)) : nat := fold_right (fun p a => (length p + a)%nat) 0%nat progs.
+
+  Lemma pendingN_upd : forall l i t t1, nth_error l i = Some t ->
+      (pendingN (upd l i t1) + length (t_todo t) = pendingN l + length (t_todo t1))%nat.
+  Proof.
+    induction l as [|a l IH]; intros [|i] t t1 H; simpl in *; try discriminate.
+    - inversion H; subst. lia.
+    - specialize (IH _ _ t1 H). lia.
+  Qed.
+
+  Lemma count_step : forall s i,
+      (length (log (xstep s i)) + pendingN (thrs (xstep s i)) = length (log s) + pendingN (thrs s))%nat.
+  Proof.
+    intros s i. unfold xstep. destruct (nth_error (thrs s) i) as [t|] eqn:Hi; [|reflexivity].
+    destruct (t_todo t) as [|o rest] eqn:Htodo; [reflexivity|].
+    assert (Hcomp : forall t1 post r, (length (log (complete s i t1 rest o post r)) + pendingN (thrs (complete s i t1 rest o post r))
+                                       = length (log s) + pendingN (thrs s))%nat).
+    { intros. simpl. pose proof (pendingN_upd _ _ _ (finish t1 rest r) Hi) as K. rewrite Htodo in K. simpl in K. lia. }
+    assert (Hloc : forall t1 v, t_todo t1 = t_todo t ->
+                                (length (log (mkSt v (upd (thrs s) i t1) (log s))) + pendingN (thrs (mkSt v (upd (thrs s) i t1) (log s)))
+                                 = length (log s) + pendingN (thrs s))%nat).
+    { intros t1 v E. simpl. pose proof (pendingN_upd _ _ _ t1 Hi) as K. rewrite E in K. lia. }
+    destruct o as [inc|inc|o n]; [apply Hcomp| |apply Hcomp].
+    destruct (t_pc t); try (apply Hloc; reflexivity).
+    destruct (cell s =? t_old t); [apply Hcomp|apply Hloc; reflexivity].
+  Qed.
+
+  Lemma count_run : forall v0 progs sched,
+      let s := xrun (init_st v0 progs) sched in (length (log s) + pendingN (thrs s) = totalN progs)%nat.
+  Proof.
+    intros v0 progs sched. induction sched as [|i l IH] using rev_ind.
+    - simpl. induction progs as [|p ps IHp]; simpl; [reflexivity|]. simpl in IHp. rewrite IHp. reflexivity.
+    - rewrite xrun_snoc. cbv zeta in *. rewrite count_step. exact IH.
+  Qed.
+
+  Lemma lchain_ret_pre : forall v0 l cur, lchain v0 l cur -> forall e, In e l -> e_ret e = e_pre e /\ e_post e = effect fadd M (e_op e) (e_pre e).
+  Proof.
+    intros v0 l. induction l as [|a l IH]; intros cur H e He; [destruct He|].
+    simpl in H. destruct H as (_ & Hr & Hp & Hl). destruct He as [<-|He]; [auto|eapply IH; eauto].
+  Qed.
+
+  Lemma NoDup_map_inj : forall A B (f : A -> B) (l : list A) x y, NoDup (map f l) -> In x l -> In y l -> f x = f y -> x = y.
+  Proof.
+    intros A B f l. induction l as [|a l IH]; intros x y Hn Hx Hy E; [destruct Hx|].
+    simpl in Hn. inversion Hn as [|? ? Hnotin Hn']; subst.
+    destruct Hx as [<-|Hx], Hy as [<-|Hy]; auto.
+    - exfalso. apply Hnotin. rewrite E. apply in_map. exact Hy.
+    - exfalso. apply Hnotin. rewrite <- E. apply in_map. exact Hx.
+  Qed.
 End Ok.
